@@ -102,7 +102,7 @@ def make_data(cfg):
             x[t:t + n] = means[r] + (rng.normal(size=(n, N)) @ mix[r].T) * cfg.get("scale", 1.0)
             t += n
             r = (r + 1 + int(rng.integers(0, max(1, R - 1)))) % R
-        series.append(x)
+        series.append(x + cfg.get("offset", 0.0))
     return series
 
 
@@ -238,4 +238,13 @@ def standard_grid(seed, thorough=False):
         cfgs.append({"N": 2, "W": 2, "K": 5 + (j % 2), "beta": [20.0, 100.0][j % 2], "lam": 0.11, "limit": [4, 30][j % 2], "m": [1, 2][j % 2],
                      "biased": False, "eps": 0, "joint": j % 2 == 1, "lengths": [70, 50][: 1 + (j % 2)], "data_seed": 1000 + j + seed,
                      "rng_seed": 5 + j, "regimes": 2})
+    # runs stopped by the iteration limit whose last relabelling leaves clusters with < 2 points
+    # (a large switching cost collapses the labelling after the first rounds)
+    for j in range(3 if not thorough else 8):
+        cfgs.append({"N": 2, "W": [2, 1, 3][j % 3], "K": [3, 4, 5][j % 3], "beta": [1e6, 5e3, 1e5][j % 3], "lam": 0.11, "limit": 1,
+                     "m": [10, 3, 5][j % 3], "biased": bool(j % 2), "eps": 0, "joint": j % 3 == 1, "lengths": [[120], [70, 60], [90]][j % 3],
+                     "data_seed": 2000 + j + seed, "rng_seed": 50 + j, "regimes": 2})
+    for j in range(2 if not thorough else 6):
+        cfgs.append({"N": 2, "W": 1 + j % 2, "K": 6, "beta": [3.0, 8.0][j % 2], "lam": 0.11, "limit": 2, "m": 2, "biased": False, "eps": 0,
+                     "joint": False, "lengths": [80], "data_seed": 3000 + j + seed, "rng_seed": 60 + j, "regimes": 2})
     return cfgs
